@@ -20,6 +20,12 @@ was last seen correct that changed its correct answer (when several qualify, the
 deleting edits and evaluations, a bounded number of times per task).  Edits that only set the scene are not in
 the tags.  Edit kinds are refined from the state ("creates" / "changes" / "shadows a model-level reference",
 "callee currently uncached") by probes evaluated on finished replay models; probes never decide pass/fail.
+
+History ingredient "a value was assigned earlier": besides the plain enumeration, every 3-edit history whose first
+edit assigns a value (to any cells of the world) is run with the evaluation patterns that compute the element only
+after the later edits (so a value computed at a key that once held an assigned value is then exposed to every
+further edit).  When a failing history needs such a scene-setting assignment (the query is answered correctly
+without it), the failure carries the tag history:value-assigned-earlier.
 """
 import os, sys, time, itertools, random, multiprocessing
 
@@ -119,7 +125,7 @@ class Runner:
             return range(self.nq - 1, -1, -1)
         return (spec,)
 
-    def live(self, seq, pattern):
+    def live(self, seq, pattern, final=F):
         """Run the live history.  pattern[i] = evaluation spec of the gap before edit i; after the last edit all
         queries are evaluated (forward).  Returns (mismatches, nontrivial, edit_errors):
         mismatches = [(gap, qi, live_outcome, ref_outcome, window_start_gap)] of the FIRST failing gap."""
@@ -134,7 +140,7 @@ class Runner:
         nontrivial = False
         edit_errors = []
         for gap in range(k + 1):
-            spec = pattern[gap] if gap < k else F
+            spec = pattern[gap] if gap < k else final
             ref = None
             bad = []
             for qi in self.order(spec):
@@ -193,6 +199,33 @@ class Runner:
                     continue
             i += 1
         return tuple(seq), tuple(pat)
+
+    def needs_assignment(self, seq, pattern, qi, start, final_spec=F):
+        """True when some value assignment made before the query was last seen correct (a scene-setting edit) is
+        necessary for the failure: without it the query agrees with the replay model.  Refines tags only."""
+        seq, pat = list(seq), list(pattern)
+
+        def fails(tseq, tpat):
+            tpat = list(tpat) + [final_spec]
+            bad, _, _ = self.live_upto(tseq, tpat)
+            return any(b[1] == qi for b in bad)
+        if not fails(seq, pat):
+            return False
+        for pos in range(min(start, len(seq))):
+            if ASSIGN_TAG not in self.w.edits[seq[pos]].tags:
+                continue
+            tseq = seq[:pos] + seq[pos + 1:]
+            if self.reference(tseq) is None:
+                continue
+            if not any(fails(tseq, tpat) for tpat in self._merged(pat, pos)):
+                return True
+        return False
+
+    def live_upto(self, seq, pattern):
+        """live() of the history `seq` whose final evaluation round is pattern[len(seq)] instead of all queries."""
+        seq = tuple(seq)
+        bad, nontrivial, eerr = self.live(seq, tuple(pattern[:len(seq)]), final=pattern[len(seq)])
+        return bad, nontrivial, eerr
 
     @staticmethod
     def _merged(pat, i):
@@ -288,13 +321,30 @@ def patterns(k, nq, level):
 
 
 def tier_plan(tier):
-    # (k, pattern level, sample size per first edit or None for exhaustive)
+    # (k, pattern level, sample size per first edit or None for exhaustive, mode)
+    # mode "assigned": only histories whose first edit assigns a value, with assigned_patterns()
     if tier == "quick":
-        return [(1, 1, None), (2, 0, None), (3, 0, 4)]
-    return [(1, 2, None), (2, 2, None), (3, 1, None), (4, 0, 100), (5, 0, 50)]
+        return [(1, 1, None, None), (2, 0, None, None), (3, 0, 4, None), (3, 0, None, "assigned")]
+    return [(1, 2, None, None), (2, 2, None, None), (3, 1, None, None), (4, 0, 100, None), (5, 0, 50, None),
+            (3, 1, None, "assigned"), (4, 0, 400, "assigned")]
+
+
+ASSIGN_TAG = "edit:value-assign"
+
+
+def assigned_patterns(k, level):
+    """Evaluation patterns of the histories that start with a value assignment: the element is computed only after
+    the edits that follow the assignment (level 0), also read while it holds the assigned value (level 1)."""
+    out = [(N,) * (k - 1) + (F,)]
+    if level >= 1:
+        out += [(N, F) + (N,) * (k - 3) + (F,)]         # (F, N, .., F) is a pattern of the plain enumeration
+    if k >= 4:
+        out += [(N, N, F) + (N,) * (k - 3)]
+    return out
 
 
 SHRINKS_PER_TASK = 12
+SCENE_CHECKS_PER_TASK = 40
 
 
 def work(task):
@@ -309,6 +359,7 @@ def work(task):
     fails = {}          # tags -> [count, [(what, script, case) ...up to 2]]
     expired = False
     shrunk = {}
+    scene_checked = {}
     sample_case = []
 
     def one(seq, pat):
@@ -347,6 +398,12 @@ def work(task):
                     if again:
                         o, r = again[0][2], again[0][3]
                     tags, _ = tagset(sseq, start)
+            if len(scene_checked) < SCENE_CHECKS_PER_TASK or (tuple(sseq), tuple(spat), qi) in scene_checked:
+                sk = (tuple(sseq), tuple(spat), qi)
+                if sk not in scene_checked:
+                    scene_checked[sk] = rn.needs_assignment(sseq, spat, qi, start, fspec)
+                if scene_checked[sk]:
+                    tags.add("history:value-assigned-earlier")
             tags = tuple(sorted(tags))
             ent = fails.setdefault(tags, [0, []])
             ent[0] += 1
@@ -355,8 +412,8 @@ def work(task):
                         % (world.name, rn.describe(sseq, spat), world.queries[qi].expr, o, r))
                 ent[1].append((what, rn.script(sseq, spat, qi, fspec), key))
 
-    for k, level, sample in [tier_plan(tier)[row]]:
-        pats = patterns(k, rn.nq, level)
+    for k, level, sample, mode in [tier_plan(tier)[row]]:
+        pats = patterns(k, rn.nq, level) if mode is None else assigned_patterns(k, level)
         if sample is None:
             seqs = ((first,) + rest for rest in itertools.product(range(ne), repeat=k - 1))
         else:
@@ -394,8 +451,9 @@ def run(res, tier, seed):
                 "replay model's answer to it changed in between (a held value depended on the edited thing); "
                 "distinct = distinct (world, edit sequence, evaluation pattern)")
     deadline = res.t0 + res.budget_s * (0.8 if tier == "quick" else 0.85)
-    tasks = [(wi, first, tier, seed, deadline, row) for row in range(len(tier_plan(tier)))
-             for wi, w in enumerate(worlds) for first in range(len(w.edits))]
+    tasks = [(wi, first, tier, seed, deadline, row) for row, prow in enumerate(tier_plan(tier))
+             for wi, w in enumerate(worlds) for first in range(len(w.edits))
+             if prow[3] is None or ASSIGN_TAG in w.edits[first].tags]
     nproc = max(1, min(12, (os.cpu_count() or 2) - 2))
     exhaustive = True
     builds = 0; cpu = 0.0; maxcpu = 0.0; nshrunk = 0
